@@ -1298,6 +1298,10 @@ def step (st : DSt) (r : Report) (ln : Nat) (cmd obs : List String) : DSt × Rep
       (st, r)
     | _, _ => (st, r.mismatch st ln "matrix" "no-op" "")
   | c :: _ =>
+    -- SPEC (C12): the interpreter never panics
+    let r := if c.startsWith "i" && implPanicked obs then
+               r.specfail st ln "c12.panic" "a result or an error value" (String.intercalate " " (obs.take 4))
+             else r
     match (stepReg st r ln cmd obs).orElse (fun _ => stepInt st r ln cmd obs) with
     | some res => res
     | none => (st, r.mismatch st ln c "unknown-command-or-bad-state" "")
